@@ -35,7 +35,7 @@ ANCHORS = [
     "acnportal.acnsim.events.stochastic_events:StochasticEvents._convert_ev_matrix",
     "acnportal.acnsim.models.battery:batt_cap_fn",
 ]
-REQUIRED = ["doc_batches_with_zoneinfo_datetimes", "doc_batches_through_generate_events", "integer_typed_sample_matrices", "doc_evs_judged", "stoch_evs_judged", "fits_judged", "regime:fit-init-above-transition",
+REQUIRED = ["doc_batches_with_a_naive_simulation_window", "doc_batches_with_user_inputs", "doc_batches_with_zoneinfo_datetimes", "doc_batches_through_generate_events", "integer_typed_sample_matrices", "doc_evs_judged", "stoch_evs_judged", "fits_judged", "regime:fit-init-above-transition",
             "regime:fit-init-below-transition", "regime:max_len-capped", "regime:force_feasible-capped",
             "regime:doc-capacity_fn", "regime:stoch-capacity_fn", "gmm_evs_judged"]
 BUDGET_S = {"quick": 200, "thorough": 2400}
@@ -178,6 +178,21 @@ def _run_docs(case, obs):
                          "timezone": tzname, "connectionTime": rfc1123(c_), "disconnectTime": rfc1123(d_), "doneChargingTime": None,
                          "kWhDelivered": round(rng.uniform(0.5, 20), 3), "userInputs": None})
         obs.ev("doc_batches_inside_a_repeated_hour")
+    if case["seed"] % 6 == 1:
+        # the caller passes NAIVE datetimes for the simulation window: python reads them as the process's local time (which varies
+        # from case to case here), and so must everything that is derived from them
+        s_n, e_n = datetime.fromtimestamp(start.timestamp()), datetime.fromtimestamp(end.timestamp())
+        if s_n.timestamp() == start.timestamp() and e_n.timestamp() == end.timestamp():
+            start, end = s_n, e_n
+            obs.ev("doc_batches_with_a_naive_simulation_window")
+    if case["seed"] % 3 == 0:
+        # claimed sessions: the driver's own inputs ride along in the document (the energy to convert is still kWhDelivered)
+        for d_ in docs:
+            if rng.random() < 0.6:
+                d_["userInputs"] = [{"userID": 7, "kWhRequested": round(d_["kWhDelivered"] * rng.choice([0.5, 2.0, 3.0]) + 1.0, 2), "milesRequested": 40,
+                                     "WhPerMile": 250, "minutesAvailable": 180, "paymentRequired": True,
+                                     "modifiedAt": d_["connectionTime"], "requestedDeparture": d_["disconnectTime"]}]
+        obs.ev("doc_batches_with_user_inputs")
     fake = FakeRequests(docs, cap=rng.choice([1000, 7]))
     kw = dict(max_len=case["max_len"], battery_params=bp, force_feasible=case["ff"])
     RealClient = getattr(ae.DataClient, "_verif_real", ae.DataClient)
